@@ -58,6 +58,9 @@ CHECKS = {
  'C18': ("proptest over all 58 types with arbitrary finite bit patterns and presence patterns; Display output tokenised (numbers, symbol runs) and matched token by token against the sequence derived from the type structure; every number parsed back bit-exactly",
          "Round-trip exploration of the textual rendering: no part dropped, duplicated, swapped, sign-flipped or altered; documented symbols in fixed order; absent parts omitted.",
          "separators and the nalgebra matrix box are not part of the oracle", "4-C18"),
+ 'C17': ("proptest-generated programs rendered to Python source and executed in an embedded CPython against the built-in extension module; differential comparison (bit-for-bit floats through getters/driver tuples, string equality of repr of every node) with the generic Rust interpreter on the corresponding Rust type / driver",
+         "Differential exploration of the binding layer: 8 scalar classes with arbitrary constructor parts and 10 driver functions with 1..12 variables (fixed-size and dynamic classes), operators with dual/float/int operands on either side, ** with int/float/dual exponents, named functions, getters, repr; the jacobian size limit is asserted as TypeError.",
+         "needs the CPython 3.11 shared library and numpy of the tooling venv (exit 2 if missing); numpy-array operands not exercised", "4-C17"),
 }
 checks = []
 for i in ids:
@@ -69,7 +72,7 @@ for i in ids:
             "thorough_cmd": f"./check {i} thorough",
             "evidence_file": f"/verif/evidence/{i}.json",
             "replay_cmd_template": f"./check {i} --replay {{path}}",
-            "engine": "ndv",
+            "engine": "ndv-py" if i == "C17" else "ndv",
             "level_claimed": {"category": "exploration", "text": text, "design_ref": ref},
             "level_note": note,
             "technique": tech,
@@ -77,10 +80,10 @@ for i in ids:
 na = [{"property_id": i, "reason": "check not built yet in this round (planned, see DESIGN.md section 4); not claimed until it is sensitive and silent"} for i in ids if i not in CHECKS]
 m = {
  "version": 1,
- "setup_cmd": "cd /verif/harness && CARGO_NET_OFFLINE=true cargo build --offline",
+ "setup_cmd": "cd /verif/harness && CARGO_NET_OFFLINE=true cargo build --offline && cd /verif/harness-py && CARGO_NET_OFFLINE=true cargo build --offline",
  "hooks": {"guard": "none", "enable": "no hooks: every observation point is public API; checks build /repo as a path dependency with features linalg, serde (and python for C17)",
            "baseline_off_cmd": "cd /repo && cargo test --workspace --no-fail-fast --offline", "source_commits": [], "add_only": True},
- "engines": [{"name": "ndv", "path": "/verif/harness", "serves_properties": [c["property_id"] for c in checks], "kind_free_text": "Rust binary driving proptest TestRunner (fixed seeds, 16 shards, shrinking) against the ndv-oracle reference algebra"}],
+ "engines": [{"name": "ndv", "path": "/verif/harness", "serves_properties": [c["property_id"] for c in checks if c["property_id"] != "C17"], "kind_free_text": "Rust binary driving proptest TestRunner (fixed seeds, 16 shards, shrinking) against the ndv-oracle reference algebra"}, {"name": "ndv-py", "path": "/verif/harness-py", "serves_properties": ["C17"], "kind_free_text": "Rust binary embedding CPython 3.11 (num-dual feature python registered as built-in module), same proptest engine"}],
  "checks": checks,
  "notes": "fix: commits in /repo (genuine defects found by the checks, see known_findings.json and DESIGN.md section 5): " + "; ".join(fix_commits),
  "not_applicable": na,
